@@ -44,6 +44,7 @@ type World struct {
 	slice *Record
 	iface *Record
 	abstract map[string]*Record // named type key -> record view
+	qfOnly   bool
 
 	unsupported []string
 }
@@ -529,6 +530,22 @@ func (w *World) FloatLit(f float64) *Term {
 // ---------------------------------------------------------------------------
 // script output
 
+// ScriptQF is Script without any quantified assumption or axiom (a weaker, hence sound, premise
+// set): most obligations close on the ground instances alone, and then close instantly.
+func (w *World) ScriptQF(assumptions []*Term, goal *Term) string {
+	w.qfOnly = true
+	defer func() { w.qfOnly = false }()
+	var ground []*Term
+	for _, a := range assumptions {
+		s := a.String()
+		if strings.Contains(s, "(forall ") || strings.Contains(s, "(exists ") {
+			continue
+		}
+		ground = append(ground, a)
+	}
+	return w.Script(ground, goal, false)
+}
+
 func (w *World) Script(assumptions []*Term, goal *Term, wantModel bool) string {
 	var body strings.Builder
 	for _, a := range assumptions {
@@ -597,6 +614,9 @@ func (w *World) Script(assumptions []*Term, goal *Term, wantModel bool) string {
 	}
 	for i, a := range w.axioms {
 		if included[i] {
+			if w.qfOnly && (strings.Contains(a.String(), "(forall ") || strings.Contains(a.String(), "(exists ")) {
+				continue
+			}
 			ax.WriteString("(assert ")
 			ax.WriteString(a.String())
 			ax.WriteString(")\n")
